@@ -136,7 +136,7 @@ pub fn specs() -> Vec<CheckSpec> {
             id: "C18",
             engine: "opsim",
             level: "fault_enumeration",
-            owns: &["extract", "extract-leftover", "checked-read"],
+            owns: &["extract", "extract-leftover", "checked-read", "content-integrity"],
             runs: (2500, 120_000),
             rule: "a case = stored value x (pristine | one damage class of C01 | content missing | key missing) x every extraction entry point (copy/hard_link/reflink, checked/unchecked, key/address, 5 flavours) x destination (absent, existing file, directory, inside cache). Non-trivial = an extraction ran against damaged or missing content, or succeeded and was compared byte-for-byte; existing destinations are longer than the data or exactly as long with other bytes, or the destination of an earlier extraction of the same run (possibly a hard link to the content file); reflink runs through the FICLONE stub of the system-call simulator; destinations that are symlinks to the entry's own content file; a key attached by a raw index record without a size; after the extractions the entry is sometimes removed, the cache cleared or the value re-written, and every file an extraction handed out must still hold what was delivered",
             assumptions: A_COMMON,
